@@ -5,13 +5,17 @@ package hx
 import (
 	"context"
 	"fmt"
+	"os"
+	"runtime"
 	"sort"
+	"sync"
 	"time"
 
 	"github.com/relab/hotstuff"
 	"github.com/relab/hotstuff/core"
 	"github.com/relab/hotstuff/core/eventloop"
 	"github.com/relab/hotstuff/internal/proto/clientpb"
+	"github.com/relab/hotstuff/internal/tree"
 	"github.com/relab/hotstuff/protocol"
 	"github.com/relab/hotstuff/protocol/comm"
 	"github.com/relab/hotstuff/protocol/consensus"
@@ -43,6 +47,105 @@ type recBase struct {
 	crypto.Base
 	id   hotstuff.ID
 	sink *[]SignRec
+	gate *Gate
+}
+
+// Verify is gated when it runs on a goroutine other than the driver's (asynchronous vote verification):
+// the call parks until the scheduler releases it, which makes the completion order a scheduler decision.
+func (r *recBase) Verify(sig hotstuff.QuorumSignature, m []byte) error {
+	if r.gate != nil && GoroutineID() != r.gate.Main {
+		tok := make(chan struct{})
+		r.gate.mu.Lock()
+		r.gate.Pending = append(r.gate.Pending, tok)
+		r.gate.mu.Unlock()
+		<-tok
+		if os.Getenv("HX_DEBUG") != "" {
+			fmt.Fprintf(os.Stderr, "gate: released %v\n", IDs(sig.Participants()))
+		}
+		err := r.Base.Verify(sig, m)
+		r.gate.mu.Lock()
+		r.gate.Results = append(r.gate.Results, fmt.Sprintf("%v:%v", IDs(sig.Participants()), err))
+		r.gate.Completed++
+		r.gate.mu.Unlock()
+		return err
+	}
+	return r.Base.Verify(sig, m)
+}
+
+// Gate holds the parked asynchronous verifications of one node.
+type Gate struct {
+	Main    uint64
+	mu      sync.Mutex
+	Pending []chan struct{}
+	Results []string // outcome of every gated verification, in completion order (diagnostics)
+	Completed int    // number of gated verifications whose signature check has returned
+}
+
+// ReleaseAndWait lets the i-th parked verification run and waits until its goroutine has finished.
+func (g *Gate) ReleaseAndWait(i int) {
+	g.mu.Lock()
+	c0 := g.Completed
+	g.mu.Unlock()
+	before := runtime.NumGoroutine()
+	g.Release(i)
+	deadline := time.Now().Add(2 * time.Second)
+	for time.Now().Before(deadline) {
+		g.mu.Lock()
+		done := g.Completed > c0
+		g.mu.Unlock()
+		if done {
+			break
+		}
+		runtime.Gosched()
+	}
+	// the goroutine still has to take the collector's lock, store the vote and possibly emit the certificate
+	deadline = time.Now().Add(200 * time.Millisecond)
+	for time.Now().Before(deadline) && runtime.NumGoroutine() >= before {
+		runtime.Gosched()
+		time.Sleep(20 * time.Microsecond)
+	}
+	time.Sleep(100 * time.Microsecond)
+}
+
+// WaitParked waits (briefly) until at least k verifications are parked.
+func (g *Gate) WaitParked(k int) {
+	deadline := time.Now().Add(5 * time.Millisecond)
+	for g.Count() < k && time.Now().Before(deadline) {
+		runtime.Gosched()
+	}
+}
+
+type _unused struct{}
+
+// Count returns the number of parked verifications.
+func (g *Gate) Count() int {
+	g.mu.Lock()
+	defer g.mu.Unlock()
+	return len(g.Pending)
+}
+
+// Release lets the i-th parked verification run.
+func (g *Gate) Release(i int) {
+	g.mu.Lock()
+	tok := g.Pending[i]
+	g.Pending = append(g.Pending[:i], g.Pending[i+1:]...)
+	g.mu.Unlock()
+	close(tok)
+}
+
+// GoroutineID returns the id of the calling goroutine.
+func GoroutineID() uint64 {
+	var buf [64]byte
+	n := runtime.Stack(buf[:], false)
+	// "goroutine 123 [running]:"
+	var id uint64
+	for _, c := range buf[len("goroutine "):n] {
+		if c < '0' || c > '9' {
+			break
+		}
+		id = id*10 + uint64(c-'0')
+	}
+	return id
 }
 
 func (r *recBase) Sign(m []byte) (hotstuff.QuorumSignature, error) {
@@ -75,7 +178,30 @@ func (s *capSender) RequestBlock(_ context.Context, h hotstuff.Hash) (*hotstuff.
 	}
 	return s.node.Fetch(s.node.ID, h)
 }
-func (s *capSender) Sub([]hotstuff.ID) (core.Sender, error) { return s, nil }
+func (s *capSender) Sub(ids []hotstuff.ID) (core.Sender, error) { return &subSender{capSender: s, ids: ids}, nil }
+
+// ContribOut is a partial aggregate handed to core.KauriSender.SendContributionToParent.
+type ContribOut struct {
+	View hotstuff.View
+	Sig  hotstuff.QuorumSignature
+}
+
+// SendContributionToParent captures the contribution.
+func (s *capSender) SendContributionToParent(view hotstuff.View, sig hotstuff.QuorumSignature) {
+	s.node.Out = append(s.node.Out, OutMsg{From: s.node.ID, To: 0, Msg: ContribOut{View: view, Sig: sig}})
+}
+
+// subSender is a sender restricted to a sub-configuration (Kauri children).
+type subSender struct {
+	*capSender
+	ids []hotstuff.ID
+}
+
+func (s *subSender) Propose(p *hotstuff.ProposeMsg) {
+	for _, id := range s.ids {
+		s.node.Out = append(s.node.Out, OutMsg{From: s.node.ID, To: id, Msg: *p})
+	}
+}
 
 // hourDuration: view timers never fire by themselves; the scheduler injects TimeoutEvents.
 type hourDuration struct{}
@@ -105,6 +231,8 @@ type Node struct {
 	Outcomes  [][3]int64                          // (client, seq, 0 = success / 1 = error) in the order they were collected
 	LR        leaderrotation.LeaderRotation
 	Key       hotstuff.PrivateKey
+	Gate      *Gate // set when NodeOpts.Async
+	Kauri     *comm.Kauri
 
 	Out    []OutMsg
 	Signed []SignRec
@@ -127,6 +255,8 @@ type NodeOpts struct {
 	Opts      []core.RuntimeOption
 	Keys      []hotstuff.PrivateKey
 	QueueSize uint
+	Async     bool // asynchronous vote verification, gated by the scheduler
+	Kauri     func(id hotstuff.ID) *tree.Tree // when set, Kauri replaces the clique communication
 }
 
 // LockOf returns the locked block of a ruleset (nil for rulesets without a lock).
@@ -153,7 +283,10 @@ func NewNodes(o NodeOpts) ([]*Node, error) {
 	if o.QueueSize == 0 {
 		o.QueueSize = 1000
 	}
-	opts := append([]core.RuntimeOption{core.WithSyncVerification()}, o.Opts...)
+	opts := append([]core.RuntimeOption{}, o.Opts...)
+	if !o.Async {
+		opts = append(opts, core.WithSyncVerification())
+	}
 	if o.Ruleset == rules.NameFastHotStuff {
 		opts = append(opts, core.WithAggregateQC())
 	}
@@ -161,7 +294,11 @@ func NewNodes(o NodeOpts) ([]*Node, error) {
 	bases := make([]crypto.Base, o.N)
 	for i := range nodes {
 		n := &Node{ID: hotstuff.ID(i + 1), Key: keys[i]}
-		n.Cfg = core.NewRuntimeConfig(n.ID, keys[i], opts...)
+		nopts := opts
+		if o.Kauri != nil {
+			nopts = append(append([]core.RuntimeOption{}, opts...), core.WithKauriTree(o.Kauri(n.ID)))
+		}
+		n.Cfg = core.NewRuntimeConfig(n.ID, keys[i], nopts...)
 		n.EL = eventloop.New(Quiet{}, o.QueueSize)
 		var err error
 		bases[i], err = crypto.New(n.Cfg, o.Scheme)
@@ -178,7 +315,12 @@ func NewNodes(o NodeOpts) ([]*Node, error) {
 	for i, n := range nodes {
 		sender := &capSender{node: n}
 		n.BC = blockchain.New(n.EL, Quiet{}, sender)
-		n.Auth = cert.NewAuthority(n.Cfg, n.BC, &recBase{Base: bases[i], id: n.ID, sink: &n.Signed})
+		rb := &recBase{Base: bases[i], id: n.ID, sink: &n.Signed}
+		if o.Async {
+			n.Gate = &Gate{Main: GoroutineID()}
+			rb.gate = n.Gate
+		}
+		n.Auth = cert.NewAuthority(n.Cfg, n.BC, rb)
 		var err error
 		n.Rules, err = rules.New(Quiet{}, n.Cfg, n.BC, o.Ruleset)
 		if err != nil {
@@ -202,7 +344,11 @@ func NewNodes(o NodeOpts) ([]*Node, error) {
 		n.Await = map[clientpb.MessageID]<-chan error{}
 		n.Committer = consensus.NewCommitter(n.EL, Quiet{}, n.BC, n.VS, n.Rules)
 		n.VM = votingmachine.New(Quiet{}, n.EL, n.Cfg, n.BC, n.Auth, n.VS)
-		cm := comm.NewClique(n.Cfg, n.VM, n.LR, sender)
+		var cm comm.Communication = comm.NewClique(n.Cfg, n.VM, n.LR, sender)
+		if o.Kauri != nil {
+			n.Kauri = comm.NewKauri(Quiet{}, n.EL, n.Cfg, n.BC, n.Auth, sender)
+			cm = n.Kauri
+		}
 		n.Voter = consensus.NewVoter(n.Cfg, n.LR, n.Rules, cm, n.Auth, n.Committer)
 		n.Proposer = consensus.NewProposer(n.EL, n.Cfg, n.BC, n.VS, n.Rules, cm, n.Voter, n.Cache, n.Committer)
 		n.Sync = synchronizer.New(n.EL, Quiet{}, n.Cfg, n.Auth, n.LR, hourDuration{}, synchronizer.NewTimeoutRuler(n.Cfg, n.Auth),
